@@ -1,4 +1,8 @@
 import Driver.C08
+import Driver.C10
+import Driver.C09
+import Driver.C16
+import Driver.C17
 import Driver.C18
 import Driver.C15
 import Driver.C01
@@ -8,6 +12,9 @@ namespace Driver
 
 structure State where
   c08 : C08.St := {}
+  c10 : C10.St := {}
+  c16 : C16.St := {}
+  c17 : C17.St := {}
   c18 : C18.St := {}
   c15 : C15.St := {}
   c01 : C01.St := {}
@@ -21,6 +28,10 @@ def step (st : State) (line : String) : State × String :=
   | "c01" :: rest => (st, C01.step rest)
   | "c15" :: rest => let (s, o) := C15.step st.c15 rest; ({ st with c15 := s }, o)
   | "c18" :: rest => let (s, o) := C18.step st.c18 rest; ({ st with c18 := s }, o)
+  | "c17" :: rest => let (s, o) := C17.step st.c17 rest; ({ st with c17 := s }, o)
+  | "c16" :: rest => let (s, o) := C16.step st.c16 rest; ({ st with c16 := s }, o)
+  | "c09" :: rest => (st, C09.step rest)
+  | "c10" :: rest => let (s, o) := C10.step st.c10 rest; ({ st with c10 := s }, o)
   | ["sha", h] => (st, match Bytes.ofHex h with | some b => Bytes.toHex (Sha256.sum b) | none => "bad-op")
   | _ => (st, "bad-op")
 
